@@ -57,18 +57,22 @@ Proof.
   rewrite be_u32_take by exact H. reflexivity.
 Qed.
 
+Lemma ldrop2 {A} k (x y : A) r : (length (drop k r) < S (length (x :: y :: r)))%nat.
+Proof. unfold drop. rewrite skipn_length. cbn [length]. lia. Qed.
+Lemma ldrop1 {A} k (x : A) r : (length (drop k r) < S (length (x :: r)))%nat.
+Proof. unfold drop. rewrite skipn_length. cbn [length]. lia. Qed.
+
 Lemma member_ff rec t r : member false false rec t r = rec t r.
 Proof. reflexivity. Qed.
 
-Section Tpl.
+(* the inputs we talk about: shorter than the fuel and than 2^31 *)
+Definition P (fu : nat) (r : bytes) : Prop := (length r < fu)%nat /\ len r < two31.
+Lemma P_drop fu r n : P fu r -> P fu (drop n r).
+Proof. intros [H1 H2]. split; [unfold drop; rewrite skipn_length; lia|rewrite len_drop; lia]. Qed.
+
+Section Gen.
   Variable St : Type.
-  Variable skipN : St -> N -> sres St bytes.
   Variable Rep : St -> bytes -> Prop.
-  Hypothesis SN_ok : forall s r n, Rep s r -> n <= len r ->
-    exists s', skipN s n = (s', Ok (take n r)) /\ Rep s' (drop n r).
-  Hypothesis SN_fail : forall s r n, Rep s r -> len r < n ->
-    exists s' c, skipN s n = (s', Err c) /\ c <> e_fuel.
-  Hypothesis Rep_wf : forall s r, Rep s r -> wf r.
 
   Definition tsim (x : sres St unit) (r : bytes) (y : pres) : Prop :=
     match y with
@@ -78,13 +82,8 @@ Section Tpl.
     end.
 
   Variable fu : nat.
-  (* the inputs we talk about: shorter than the fuel and than 2^31 *)
-  Definition P (r : bytes) : Prop := (length r < fu)%nat /\ len r < two31.
-  Lemma P_drop r n : P r -> P (drop n r).
-  Proof. intros [H1 H2]. split; [unfold drop; rewrite skipn_length; lia|rewrite len_drop; lia]. Qed.
-
-  Lemma drop_0' (r : bytes) : drop 0 r = r.
-  Proof. reflexivity. Qed.
+  Notation P := (P fu).
+  Notation P_drop := (P_drop fu).
 
   (* ---------- counted loop ---------- *)
   Section Loop.
@@ -132,6 +131,43 @@ Section Tpl.
       + exact H2.
     - destruct H1 as [s' [c [E1 Hc]]]. rewrite E1. cbn [sbind]. exists s', c. split; [reflexivity|exact Hc].
   Qed.
+
+  Lemma tsim_shift x r k (y : pres) :
+    tsim x (drop k r) y -> tsim x r (do (n, h) <- y; Ok (k + n, S h)).
+  Proof.
+    unfold tsim. destruct y as [[n h]|er| |]; cbn [bind]; try tauto.
+    intros [s' [E HR]]. exists s'. split; [exact E|]. rewrite drop_plus in HR. exact HR.
+  Qed.
+  Lemma tsim_top x r (y : pres) :
+    tsim x r y -> tsim x r (do (n, h) <- y; Ok (n, S h)).
+  Proof. unfold tsim. destruct y as [[n h]|er| |]; cbn [bind]; tauto. Qed.
+
+End Gen.
+
+Lemma member_fixed_ext' st rec t w : kind_of t = KFixed w -> forall r, member true st rec t r = fixedp w r.
+Proof.
+  intros K r. unfold member, is_fixed. rewrite K. cbn [andb orb]. apply leaf_fixed, K.
+Qed.
+
+
+Section Tpl.
+  Variable St : Type.
+  Variable skipN : St -> N -> sres St bytes.
+  Variable Rep : St -> bytes -> Prop.
+  Hypothesis SN_ok : forall s r n, Rep s r -> n <= len r ->
+    exists s', skipN s n = (s', Ok (take n r)) /\ Rep s' (drop n r).
+  Hypothesis SN_fail : forall s r n, Rep s r -> len r < n ->
+    exists s' c, skipN s n = (s', Err c) /\ c <> e_fuel.
+  Hypothesis Rep_wf : forall s r, Rep s r -> wf r.
+
+  Notation tsim := (tsim St Rep).
+  Variable fu : nat.
+  Notation P := (P fu).
+  Notation P_drop := (P_drop fu).
+  Notation t_loop_sim := (t_loop_sim St Rep fu).
+  Notation pair_sim := (pair_sim St Rep fu).
+  Notation tsim_shift := (tsim_shift St Rep).
+  Notation tsim_top := (tsim_top St Rep).
 
   (* ---------- struct loop ---------- *)
   Section StructLoop.
@@ -181,21 +217,6 @@ Section Tpl.
     intros HR. rewrite hasn_le. destruct (N.leb_spec w (len r)) as [H|H].
     - destruct (SN_ok s r w HR H) as [s' [E HR']]. rewrite E. cbn. exists s'. split; [reflexivity|exact HR'].
     - destruct (SN_fail s r w HR H) as [s' [c [E Hc]]]. rewrite E. cbn. exists s', c. split; [reflexivity|exact Hc].
-  Qed.
-
-  Lemma tsim_shift x r k (y : pres) :
-    tsim x (drop k r) y -> tsim x r (do (n, h) <- y; Ok (k + n, S h)).
-  Proof.
-    unfold tsim. destruct y as [[n h]|er| |]; cbn [bind]; try tauto.
-    intros [s' [E HR]]. exists s'. split; [exact E|]. rewrite drop_plus in HR. exact HR.
-  Qed.
-  Lemma tsim_top x r (y : pres) :
-    tsim x r y -> tsim x r (do (n, h) <- y; Ok (n, S h)).
-  Proof. unfold tsim. destruct y as [[n h]|er| |]; cbn [bind]; tauto. Qed.
-
-  Lemma member_fixed_ext' st rec t w : kind_of t = KFixed w -> forall r, member true st rec t r = fixedp w r.
-  Proof.
-    intros K r. unfold member, is_fixed. rewrite K. cbn [andb orb]. apply leaf_fixed, K.
   Qed.
 
   Lemma tskip_sim : forall d s r t, Rep s r -> t < 256 -> P r ->
@@ -260,8 +281,8 @@ Section Tpl.
         unfold fixed_width. rewrite Kk, Kv.
         rewrite (gelems_ext _ _ (fixedp (kw + vw))).
         2:{ intros r. rewrite <- gpair_fixed. apply gpair_ext; apply member_fixed_ext'; assumption. }
-        pose proof (kind_fixed_pos _ _ Kk). pose proof (kind_fixed_pos _ _ Kv).
-        rewrite gelems_fixed; [|lia|unfold drop; rewrite skipn_length; cbn [length]; lia].
+        pose proof (kind_fixed_pos _ _ Kk) as Hkw. pose proof (kind_fixed_pos _ _ Kv) as Hvw.
+        rewrite gelems_fixed; [|clear - Hkw Hvw; lia|apply ldrop2].
         rewrite <- N2Z.inj_add, <- N2Z.inj_mul, N2Z.id.
         apply skip_exact. exact HR1.
       + rewrite N2Z.id.
@@ -270,7 +291,7 @@ Section Tpl.
         * apply pair_sim; intros s0 r0 HR0 HP0; apply IH; assumption.
         * apply gpair_good; apply rp_good.
         * apply HP1.
-        * unfold drop; rewrite skipn_length; cbn [length]; lia.
+        * apply ldrop2.
     - (* list / set *)
       assert (Hfail : len r < 5 -> forall y, tsim (sbind (skipN s 5) y) r (Err E_TRUNC)).
       { intros H5 y. destruct (SN_fail s r 5 HR H5) as [s' [c [E Hc]]]. rewrite E. cbn.
@@ -297,8 +318,8 @@ Section Tpl.
       + unfold is_fixed in Fe. destruct (kind_of et) as [w| | | | |] eqn:Ke; try discriminate.
         unfold fixed_width. rewrite Ke.
         rewrite (gelems_ext _ _ (fixedp w)) by (apply member_fixed_ext'; assumption).
-        pose proof (kind_fixed_pos _ _ Ke).
-        rewrite gelems_fixed; [|lia|unfold drop; rewrite skipn_length; cbn [length]; lia].
+        pose proof (kind_fixed_pos _ _ Ke) as Hw.
+        rewrite gelems_fixed; [|exact Hw|apply ldrop1].
         rewrite <- N2Z.inj_mul, N2Z.id.
         apply skip_exact. exact HR1.
       + rewrite N2Z.id.
@@ -308,7 +329,7 @@ Section Tpl.
         * intros s0 r0 HR0 HP0; apply IH; assumption.
         * apply rp_good.
         * apply HP1.
-        * unfold drop; rewrite skipn_length; cbn [length]; lia.
+        * apply ldrop1.
     - cbn. exists s, e_unknown_type. split; [reflexivity|discriminate].
   Qed.
 End Tpl.
@@ -385,38 +406,52 @@ Proof.
   - destruct T as [s' [c [E Hc]]]. rewrite E. cbn [sbind]. exists s', c. auto.
 Qed.
 
-Corollary bs_next_accepts b t n : wf b -> t < 256 -> len b < two31 ->
-  ((exists s out, bs_next (bs_new b) t = (s, Ok out) /\ len out = n) <-> refparse inl_none 64 t b = Ok n).
+Corollary bs_next_depth_accepts b t d n : wf b -> t < 256 -> len b < two31 ->
+  ((exists s out, bs_next_depth (bs_new b) t d = (s, Ok out) /\ len out = n) <-> refparse inl_none d t b = Ok n).
 Proof.
-  intros W Ht Hlen. pose proof (bs_next_is_ref b t 64 W Ht Hlen) as T.
-  unfold bs_next. rewrite depth_ok. rewrite ref_inv.
-  pose proof (rp_good inl_none 64 t b) as G.
-  destruct (rp inl_none 64 t b) as [[n' h]|e| |]; try contradiction.
+  intros W Ht Hlen. pose proof (bs_next_is_ref b t d W Ht Hlen) as T.
+  rewrite ref_inv.
+  pose proof (rp_good inl_none d t b) as G.
+  destruct (rp inl_none d t b) as [[n' h]|e| |]; try contradiction.
   - specialize (G n' h eq_refl). rewrite T. split.
-    + intros [s [out [E L]]]. inversion E; subst. rewrite take_len by lia. eauto.
-    + intros [h' E]. inversion E; subst. do 2 eexists. split; [reflexivity|]. apply take_len. lia.
+    + intros [s [out [E L]]]. assert (out = take n' b) by congruence. subst out.
+      rewrite take_len in L by lia. subst n'. eauto.
+    + intros [h' E]. assert (n = n') by congruence. subst n'.
+      do 2 eexists. split; [reflexivity|]. apply take_len. lia.
   - destruct T as [s [c [E _]]]. rewrite E. split.
     + intros [s0 [out [E0 _]]]. discriminate.
     + intros [h' E']. discriminate.
 Qed.
 
-Theorem bs_next_safe b t : wf b -> t < 256 -> len b < two31 -> safe (snd (bs_next (bs_new b) t)).
+Theorem bs_next_depth_safe b t d : wf b -> t < 256 -> len b < two31 -> safe (snd (bs_next_depth (bs_new b) t d)).
 Proof.
-  intros W Ht Hlen. pose proof (bs_next_is_ref b t 64 W Ht Hlen) as T.
-  unfold bs_next. rewrite depth_ok.
-  destruct (rp inl_none 64 t b) as [[n' h]|e| |]; try contradiction.
+  intros W Ht Hlen. pose proof (bs_next_is_ref b t d W Ht Hlen) as T.
+  destruct (rp inl_none d t b) as [[n' h]|e| |]; try contradiction.
   - rewrite T. exact I.
   - destruct T as [s [c [E _]]]. rewrite E. exact I.
 Qed.
 
-Theorem bs_next_bounded b t s out : wf b -> t < 256 -> len b < two31 ->
-  bs_next (bs_new b) t = (s, Ok out) -> 1 <= len out <= len b /\ out = take (len out) b.
+Theorem bs_next_depth_bounded b t d s out : wf b -> t < 256 -> len b < two31 ->
+  bs_next_depth (bs_new b) t d = (s, Ok out) -> 1 <= len out <= len b /\ out = take (len out) b.
 Proof.
-  intros W Ht Hlen E. pose proof (bs_next_is_ref b t 64 W Ht Hlen) as T.
-  unfold bs_next in E. rewrite depth_ok in E.
-  pose proof (rp_good inl_none 64 t b) as G.
-  destruct (rp inl_none 64 t b) as [[n' h]|e| |]; try contradiction.
-  - specialize (G n' h eq_refl). rewrite T in E. inversion E; subst.
+  intros W Ht Hlen E. pose proof (bs_next_is_ref b t d W Ht Hlen) as T.
+  pose proof (rp_good inl_none d t b) as G.
+  destruct (rp inl_none d t b) as [[n' h]|e| |]; try contradiction.
+  - specialize (G n' h eq_refl). rewrite T in E.
+    assert (out = take n' b) by congruence. subst out.
     rewrite take_len by lia. split; [lia|reflexivity].
   - destruct T as [s0 [c [E0 _]]]. rewrite E0 in E. discriminate.
 Qed.
+
+(* the public entry point: budget defaultRecursionDepth = 64 *)
+Lemma bs_next_eq s t : bs_next s t = bs_next_depth s t depth0.
+Proof. reflexivity. Qed.
+
+Corollary bs_next_accepts b t n : wf b -> t < 256 -> len b < two31 ->
+  ((exists s out, bs_next (bs_new b) t = (s, Ok out) /\ len out = n) <-> refparse inl_none 64 t b = Ok n).
+Proof. rewrite <- depth_ok. apply bs_next_depth_accepts. Qed.
+Theorem bs_next_safe b t : wf b -> t < 256 -> len b < two31 -> safe (snd (bs_next (bs_new b) t)).
+Proof. apply bs_next_depth_safe. Qed.
+Theorem bs_next_bounded b t s out : wf b -> t < 256 -> len b < two31 ->
+  bs_next (bs_new b) t = (s, Ok out) -> 1 <= len out <= len b /\ out = take (len out) b.
+Proof. apply bs_next_depth_bounded. Qed.
